@@ -23,19 +23,153 @@ ASSUMPTIONS_COMMON = [
     'termination: decreases clauses are checked by Verus where it sees the loop; Kani proves nothing about termination',
 ]
 
+
+def N(name, bound, tier='quick'):
+    return dict(name=name, bound=bound, tier=tier)
+
+
+VERUS_LEAF = 'Verus contracts discharged on the extracted real code for: varint_*, BlockWriter::*, BlockBuffer::*, compress_and_write_block, Metadata::{read_from,write_into}, CountWrite::*, Error::{from,convert_merge_error}, CompressionType::from_u8, WriterBuilder::{block_size,build}, Writer::{insert,into_inner,finish}'
+ASSUME_CODEC = 'codec crates (snap, flate2, lz4_flex, zstd) are not verified: compress_spec/decompress_spec are uninterpreted with the assumed axiom decompress(compress(x)) == x; compress/decompress dispatchers of compression.rs are replaced by a stand-in with that contract'
+ASSUME_IO = 'user I/O components are abstract (ghost sink_bytes/rd_bytes); std write_all/read_exact/flush/seek and byteorder read_uN/write_uN carry ASSUMED contracts (specs/prelude.rs: vio, byteorder)'
+ASSUME_PHYS = 'physical size bounds assumed at named call sites: any Vec/slice < 2^60 elements, any sink accepted < 2^62 bytes, < 2^32 offset slots per block, entries_count < 2^64-1, 64-bit usize'
+ASSUME_DROP = 'impl Drop for BlockBuffer is modelled by an explicit call inserted at the end of compress_and_write_block (R-drop); derive(Clone) for BlockWriter assumed to copy'
+WRITER_UNPROVED = 'Writer-level tree structure (each index entry = last key of child -> child offset; concatenation of data blocks == inserted entries) is NOT yet a discharged Verus obligation: decided only by the bounded stand-in with the independent decoder'
+READER_UNPROVED = 'ReaderCursor / IndexBlockCursor / BlockCursor traversal and search are not under Verus contract yet: decided only by the bounded stand-ins'
+
 PROPS = {
-    'C15': dict(
-        level='other', level_text='wip', level_note='wip', technique='Verus invariant on Writer (pending block sizes)', kani=[], native=[], witness=[],
-        explanation='wip'),
     'C01': dict(
-        level='other', level_text='wip', level_note='wip', technique='wip', kani=[], native=[], witness=[],
-        explanation='wip'),
+        level='other',
+        level_text='Contracts discharged by Verus (unbounded) for the whole write path at function level: entry framing == LEB128 frames (varint, BlockWriter::insert), block bytes == payload ++ offset table ++ count (BlockWriter::finish), every emitted block == be64(len) ++ compress(block) appended to the sink and the block writer reset (compress_and_write_block), trailer bytes == the 22-byte V2 layout with entry count == number of inserts, codec and index_levels == configured (Writer::into_inner, Metadata::write_into), sink flushed; Metadata::read_from decodes exactly that trailer. The tree-level part of the statement (scans return exactly the inserted pairs) is decided by a bounded stand-in: real Writer+Reader over all codecs, index depths 0..5 and 255, block sizes, intervals, key shapes incl. the lone empty key and entries larger than a block, compared with the inserted list and cross-checked by an independent decoder.',
+        level_note='Proved obligations trust: ' + ASSUME_CODEC + '; ' + ASSUME_IO + '; ' + ASSUME_PHYS + '; ' + ASSUME_DROP + '. Not proved: ' + WRITER_UNPROVED + '; ' + READER_UNPROVED,
+        technique='Verus function contracts on the extracted write path + bounded differential stand-in (real Writer/Reader vs inserted list and independent decoder)',
+        kani=[], native=[N('verif_rw::c01_roundtrip', '25 (quick) / 67 (thorough) files: <= 2700 entries, index_levels in {0,1,2,3,4,5,255}, all 6 codecs, block sizes {1024,1500,4096}, intervals {1,2,3,7,8,100}')], witness=[],
+        unproved=[WRITER_UNPROVED, READER_UNPROVED], assumptions=[ASSUME_CODEC, ASSUME_IO, ASSUME_PHYS, ASSUME_DROP],
+        explanation='function-level contracts proved by Verus; end-to-end round trip bounded'),
+    'C02': dict(
+        verus_required=False,
+        level='other',
+        level_text='No discharged contract yet on the search path beyond the [u8] lexicographic-order axiom used by BlockWriter; decided by a bounded stand-in: for 14+ files (index depth 0..4, deep trees with few long keys, blocks holding exact multiples of the in-block interval, keys differing only by trailing zero bytes, the empty key) every equivalence class of probes (each key, each gap, before first, after last, prefixes and extensions) is sought with GE/LE/EQ on fresh, reset and cloned cursors and compared with the ceiling/floor/match of the sorted list.',
+        level_note=READER_UNPROVED + '; bounded: file sizes <= 2500 entries',
+        technique='bounded differential stand-in on the real Reader (contracts on BlockCursor/ReaderCursor pending)',
+        kani=[], native=[N('verif_cursor::c02_seeks', '14 files (26 thorough), <= 2500 entries, ~7500 probes x {fresh, reset+clone}')], witness=[],
+        unproved=[READER_UNPROVED], explanation='bounded stand-in only for now'),
+    'C03': dict(
+        verus_required=False,
+        level='other',
+        level_text='Bounded stand-in: random operation histories (first,last,next,prev,GE,LE,EQ,reset,clone,current; long next/prev runs crossing several index blocks between absolute moves; the documented first,first,next*,first sweep; clone independence) on files with index depth 0..4 are replayed against a model whose state is (sorted content, logical position). The literal clause about current() after a None-returning move is a recorded finding.',
+        level_note=READER_UNPROVED + '; bounded: <= 840 histories of <= ~12000 operations per run (3x in thorough)',
+        technique='bounded model-based stand-in on the real ReaderCursor (representation-invariant contract pending)',
+        kani=[], native=[N('verif_cursor::c03_histories', '60 (300 thorough) random histories per file x 14 files + sweep and clone scenarios'), N('verif_cursor::c03_current_after_none_literal', 'same histories; literal current() clause (known finding)')], witness=[],
+        unproved=[READER_UNPROVED], explanation='bounded stand-in only for now'),
+    'C04': dict(
+        verus_required=False,
+        level='other',
+        level_text='Bounded stand-in: forward and reverse range iterators over all 9 bound-kind combinations with present/absent/equal/inverted bounds on files with index depth 0..4 and variable-length keys, compared with the filtered sorted list.',
+        level_note=READER_UNPROVED + '; bounded: ~1300 ranges per run',
+        technique='bounded differential stand-in on the real RangeIter/RevRangeIter (contracts over the cursor pending)',
+        kani=[], native=[N('verif_cursor::c04_ranges', '95 (405 thorough) ranges per file x 14 files')], witness=[],
+        unproved=[READER_UNPROVED], explanation='bounded stand-in only for now'),
+    'C05': dict(
+        verus_required=False,
+        level='other',
+        level_text='Bounded stand-in: forward and reverse prefix iterators for prefixes that are empty, longer than every key, stored keys, ending in / made of / containing interior 0xFF bytes, matching nothing; compared with the filtered sorted list.',
+        level_note=READER_UNPROVED + '; bounded: ~2000 prefixes per run',
+        technique='bounded differential stand-in on the real PrefixIter/RevPrefixIter (contract on advance_key pending)',
+        kani=[], native=[N('verif_cursor::c05_prefixes', '~150 prefixes per file x 14 files')], witness=[],
+        unproved=[READER_UNPROVED], explanation='bounded stand-in only for now'),
+    'C06': dict(
+        verus_required=False,
+        level='other',
+        level_text='Bounded stand-in: all overlap patterns of 3 sources x 4 keys (every 5th in quick, all 4096 in thorough) plus random merges of up to 6 sources / 150 keys with an order-recording non-commutative merge function that logs every call; both the streaming iterator and write_into_stream_writer (decoded independently).',
+        level_note='MergerIter/BinaryHeap not under contract yet; bounded',
+        technique='bounded differential stand-in on the real Merger (contract on Entry::cmp pending)',
+        kani=[], native=[N('verif_merge::c06_merge', '837 (4173 thorough) source patterns x 2 routes')], witness=[],
+        unproved=['Merger/MergerIter not under contract'], explanation='bounded stand-in only for now'),
+    'C07': dict(
+        verus_required=False,
+        level='other',
+        level_text='Bounded stand-in: insert sequences of 0..95k (140k thorough) entries (12-37 MiB, so the real 10 MiB minimum budget spills 1-3 times and chunk merges trigger), duplicates, empty pairs (also as the last pending entry), one entry larger than the buffer; 4 configurations (realloc on/off, max chunks 1/2/3/25, stable/unstable, sequential/rayon, 4 codecs, index levels 0..3) x 3 output routes, compared with sort-and-merge of the inserts in insertion order (multiset per key under the unstable sort).',
+        level_note='Sorter not under contract yet; rayon scheduling is not controllable (whatever schedule the run takes); bounded',
+        technique='bounded differential stand-in on the real Sorter',
+        kani=[], native=[N('verif_merge::c07_sorter_equals_sort_and_merge', '34 runs, 10 with spills (more in thorough)')], witness=[],
+        unproved=['Sorter not under contract'], explanation='bounded stand-in only for now'),
+    'C08': dict(
+        verus_required=False,
+        level='other',
+        level_text='Bounded stand-in: 55 MiB (90 thorough) of small-entry inserts (<= budget/4) through a counting ChunkCreator for 7 (threshold, realloc, max_nb_chunks, injected create failure) settings incl. non-16-aligned budgets and max_nb_chunks 1: bytes inserted since the last create() <= 2x budget (1x without realloc), live chunks <= max+2, every spill goes through the creator, no chunk leaks.',
+        level_note='Sorter arithmetic not under contract yet; bounded',
+        technique='bounded instrumented stand-in on the real Sorter',
+        kani=[], native=[N('verif_merge::c08_spill_bounds', '7 settings x 55 MiB')], witness=[],
+        unproved=['Sorter::insert spill arithmetic not under contract'], explanation='bounded stand-in only for now'),
+    'C09': dict(
+        level='other',
+        level_text='Format clauses discharged by Verus at function level, written from the statement (literal magic numbers, big-endian block lengths/offset tables, little-endian trailer): frame layout, offset table one per interval with first 0 and u32 BE count, stored block = u64 BE length + compressed bytes, 22-byte trailer. Index structure (last key -> child offset at every level) and interop are bounded: every scenario file is decoded by an independent decoder (walks the tree from the trailer, checks every clause, back-to-back blocks), read by the frozen grenad 0.4.7 reader, and 0.4.7-written files are read by the current reader; uncompressed files must be byte-identical to 0.4.7 output.',
+        level_note='Proved obligations trust: ' + ASSUME_CODEC + '; ' + ASSUME_IO + '; ' + ASSUME_PHYS + '. Not proved: ' + WRITER_UNPROVED,
+        technique='Verus function contracts on the write path (format spec written from the statement) + bounded independent decoder and 0.4.7 interop stand-in',
+        kani=[], native=[N('verif_rw::c09_format_and_interop', 'same 25/67 files as C01; 0.4.7 matrix for codecs None and snappy-pre-0.5')], witness=[],
+        unproved=[WRITER_UNPROVED], assumptions=[ASSUME_CODEC, ASSUME_IO, ASSUME_PHYS],
+        explanation='format at function level proved; tree structure and interop bounded'),
+    'C10': dict(
+        level='other',
+        level_text='Metadata::read_from is proved (Verus, all byte strings) to decode a V1 trailer (21 bytes, literal magic 0x76324D4C) into FormatV1 with the stored root offset, codec and count and index_levels 0; no reader contract mentions the version. "Identical results" is bounded: V1 twins of V2 files (all codecs, block sizes, intervals, 0..600 entries incl. empty) compared on open metadata, scans, seeks, ranges and prefixes.',
+        level_note=READER_UNPROVED,
+        technique='Verus contract on Metadata::read_from + bounded V1/V2 twin stand-in',
+        kani=[], native=[N('verif_rw::c10_v1_files', '14 (40 thorough) twin pairs, ~1600 queries')], witness=[],
+        unproved=[READER_UNPROVED], explanation='trailer decode proved; identical query results bounded'),
+    'C11': dict(
+        level='other',
+        level_text='Write side: CountWrite::write/flush are proved (Verus) against the trait-level contract of an arbitrary inner writer that accepts any prefix or fails (count == bytes accepted); every emission in compress_and_write_block / Metadata::write_into goes through write_all / byteorder writes whose assumed contract is schedule independent, so the emitted bytes are a function of the entries. Read side and whole-pipeline determinism are bounded: sinks accepting 1..n bytes per call with/without Interrupted, sources serving 1..n bytes per read with/without Interrupted, for all codecs, plus a Sorter over splitting chunk storage.',
+        level_note=ASSUME_IO + '; read path not under contract; bounded schedules are pseudo-random (VERIF_SEED)',
+        technique='Verus trait-level contract for CountWrite + assumed std write_all/read_exact contracts + bounded schedule stand-in',
+        kani=[], native=[N('verif_io::c11_io_splitting', '6 files x (6 sink schedules + 7 source schedules) + 2 sorter runs')], witness=[],
+        unproved=['read side (Block::read_from, decompress over Take) not under contract'], assumptions=[ASSUME_IO],
+        explanation='write side proved modulo std contracts; read side bounded'),
+    'C12': dict(
+        level='other',
+        level_text='Proved (Verus): panic-freedom of every function under contract (no overflow, no failing unwrap/index under the stated physical bounds), Error::convert_merge_error total on non-merge errors, io errors converted by From, CountWrite::into_inner flushes before handing the sink back, Writer::into_inner returns Ok only after trailer and flush. Bounded: exhaustive k-th-call fault injection on sinks (two error kinds), sources, chunk creator (io and InvalidFormatVersion), chunk storage and merge function through Writer, Reader, Merger and Sorter under catch_unwind.',
+        level_note=ASSUME_IO + '; reader/merger/sorter error paths not under contract',
+        technique='Verus safety obligations + error-kind postconditions on the write path; bounded exhaustive fault injection stand-in',
+        kani=[], native=[N('verif_io::c12_faults_surface_as_err', '~3500 sink fault points, ~2200 source fault points, ~550 merge/create/chunk fault points')], witness=[],
+        unproved=['reader/merger/sorter error propagation not under contract'], assumptions=[ASSUME_IO],
+        explanation='write path proved; other paths bounded'),
+    'C13': dict(
+        level='other',
+        level_text='Proved (Verus, all byte strings, any Read+Seek source): Metadata::read_from returns Ok only if the string ends with a complete V1/V2 trailer with a known codec id, and then returns exactly the decoded fields; never panics. The converse (every valid trailer is accepted) and Reader::new on Cursor<&[u8]> are bounded: every truncation of scenario files near the tail, every single-byte corruption of the trailer, all codec bytes 0..8 for both versions, and thousands of random short strings, compared with an independent trailer parser.',
+        level_note=ASSUME_IO + '; exactness direction bounded',
+        technique='Verus contract on Metadata::read_from (soundness direction) + bounded exactness stand-in',
+        kani=[], native=[N('verif_rw::c13_open_exactness', '~3900 byte strings (quick)')], witness=[],
+        unproved=['valid trailer => Ok (completeness direction) not a discharged obligation'], assumptions=[ASSUME_IO],
+        explanation='soundness proved, completeness bounded'),
+
+    'C15': dict(
+        level='other',
+        level_text='Proved (Verus, unbounded, prophecy loop invariant over the split_last_mut cascade): WriterBuilder::block_size clamps to max(1024, size); BlockWriter::current_size_estimate is exactly the uncompressed size of the block; after every Writer::insert that returns, the pending data block and every pending index block more than one level below the root is smaller than the block size (so a block is emitted by the insert that makes it reach B). The "not earlier" direction and the sizes of the emitted blocks are bounded: the independent decoder recomputes, for every emitted block of every scenario file, its size without its final entry (< B) and that non-final blocks are >= B.',
+        level_note=ASSUME_PHYS + '; ' + ASSUME_DROP,
+        technique='Verus representation invariant on Writer (pending block sizes) + bounded decoder stand-in',
+        kani=[], native=[N('verif_rw::c15_block_cut', '25/67 files, every block at depth >= 2')], witness=[],
+        unproved=['emitted block sizes >= B for non-final blocks (ghost log not built)'], assumptions=[ASSUME_PHYS, ASSUME_DROP],
+        explanation='pending-size invariant proved; emitted sizes bounded'),
+    'C16': dict(
+        level='other',
+        level_text='Proved (Verus): Metadata::read_from performs no block load (ghost load counter unchanged). Per-operation bound is bounded: an instrumented source counts absolute seeks (one per block load) per public cursor operation over 900 (4000 thorough) operations per file incl. full forward sweeps, index depth 0..4: <= 2*(levels+2); opening reads <= 26 bytes and seeks to no block.',
+        level_note=READER_UNPROVED,
+        technique='ghost load counter contract on Metadata::read_from + bounded instrumented stand-in',
+        kani=[], native=[N('verif_cursor::c16_io_bound', '14 files x 900 operations')], witness=[],
+        unproved=[READER_UNPROVED], explanation='open proved, per-operation bound bounded'),
+    'C17': dict(
+        level='other',
+        level_text='Proved (Verus): absence of arithmetic overflow and out-of-bounds indexing in every function under contract (write path, varint, metadata) under the stated physical bounds. The unsafe two-ended buffer of the sorter is not under contract yet.',
+        level_note=ASSUME_PHYS + '; Entries/EntryBoundAlignedBuffer (unsafe) pending Kani harnesses',
+        technique='Verus safety obligations (overflow, bounds) on extracted real code; Kani on the unsafe buffer pending',
+        kani=[], native=[], witness=[],
+        unproved=['Entries / EntryBoundAlignedBuffer unsafe code', 'reader-side slicing (Block::entry_at)'], assumptions=[ASSUME_PHYS],
+        explanation='safe write path proved; unsafe sorter buffer pending'),
     'C18': dict(
         level='proof',
         level_text='Unbounded deductive proof (Verus) on the real BlockWriter::insert with the documented assert! modelled as divergence: whenever insert returns, the block under construction has strictly ascending keys and its bytes are exactly the framed entries; finish() emits exactly those bytes plus the offset table. (Writer-level clauses are added as the Writer contracts are discharged.)',
         level_note='Trusted: Verus/Z3, extractor, the [u8] lexicographic-order axiom (prelude), the R-assert-diverge rewrite (assert!(c) -> if !c { diverge }).',
         technique='Verus representation invariant on the real BlockWriter (sortedness, framing, offset table)',
-        kani=[], native=[], witness=[],
+        kani=[], native=[N('verif_rw::c18_unsorted_panics', '120 (400 thorough) insert sequences with swaps/duplicates, index levels 0..3')], witness=[],
         explanation='BlockWriter::wf (closed representation invariant incl. sorted_strict) is required and ensured by every BlockWriter operation',
     ),
     'C14': dict(
@@ -44,7 +178,7 @@ PROPS = {
         level_note='Trusted: Verus/Z3, Kani/CBMC, the text extractor; no assumed contract is involved in the varint functions themselves.',
         technique='Verus contracts (bit-vector lemmas) on extracted real code + complete Kani harness over all u32',
         kani=[dict(name='c14_varint_roundtrip_all_u32', kind='complete')],
-        native=[],
+        native=[N('verif_rw::c14_framing_boundaries', 'entries with key/value lengths on both sides of 2^7, 2^14, 2^21 through the public Writer/Reader (2^28 does not fit the time budget)')],
         witness=[],
         trusted=[],
         assumptions=[],
